@@ -294,6 +294,15 @@ func (st *runState) finish(ri *simcheck.RunInfo, sim *simrt.Sim, t0 time.Time, t
 			}
 			continue
 		}
+		if r.Req.CancelUs > 0 && r.Cancelled {
+			gone := r.StartT.Add(time.Duration(r.Req.CancelUs) * time.Microsecond)
+			n := time.Duration(r.Req.Result.Series*r.Req.Result.RowsPer + 1)
+			allow := 5*time.Second + 2*n*time.Duration(r.Req.Result.RowLatencyUs+r.Req.WriteUs)*time.Microsecond + time.Duration(r.Req.Result.QueryDelayUs)*time.Microsecond
+			if late := r.EndT.Sub(gone); late > allow {
+				add("C12", "client-gone-not-released", "request keeps running long after the client went away: "+r.Req.Kind,
+					fmt.Sprintf("req%d %s: the client went away at +%v, the handler returned %v later (allowed %v); result script %+v", r.ID, r.Path, time.Duration(r.Req.CancelUs)*time.Microsecond, late, allow, brief(r.Req.Result)))
+			}
+		}
 		if len(r.Statuses) > 1 {
 			add("C12", "two-statuses", "handler wrote two statuses: "+r.Req.Kind, fmt.Sprintf("req%d %s wrote %v", r.ID, r.Path, r.Statuses))
 		}
